@@ -1,5 +1,6 @@
 (* Property C03 — a passing mesh comparison implies equality up to reordering (no false PASS). *)
 From Coq Require Import QArith Qabs Qminmax Arith Bool List Permutation.
+From Coq Require PrimFloat.
 From FC Require Import Model.Scalar Model.Mesh Model.Compare Proofs.ScalarP Proofs.MeshP Proofs.CompareP.
 Import ListNotations.
 Local Open Scope nat_scope.
@@ -87,6 +88,23 @@ Proof.
   destruct Hout as [H|H]; rewrite H in E1, E2; cbn in E1, E2; congruence.
 Qed.
 Print Assumptions C03_suite_false_if_a_field_failed_or_errored.
+
+(* binary64 kernel of the fuzzy formula (Model/Scalar.v, bit-exact tie in C01): a pass implies a FINITE deviation — an entry
+   that is infinite on one side never passes; the kernel as found at the pinned commit accepted it (F-C03b, fixed 2461513) *)
+Theorem C03_pass_implies_finite_deviation : forall a b rel abs,
+  fuzzy_f a b rel abs = true ->
+  PrimFloat.ltb (PrimFloat.abs (PrimFloat.sub b a)) PrimFloat.infinity = true.
+Proof. intros a b rel abs H. unfold fuzzy_f in H. apply andb_prop in H. exact (proj2 H). Qed.
+Print Assumptions C03_pass_implies_finite_deviation.
+
+Theorem C03_infinite_entry_pinned_refuted :
+  fuzzy_f_pinned f_one f_inf f_eps f_zero = true /\
+  fuzzy_f_pinned f_inf f_ninf f_eps f_zero = true /\
+  fuzzy_f f_one f_inf f_eps f_zero = false /\
+  fuzzy_f f_inf f_ninf f_half f_million = false /\
+  fuzzy_f f_one f_three_halves f_half f_zero = true.
+Proof. vm_compute. repeat split; reflexivity. Qed.
+Print Assumptions C03_infinite_entry_pinned_refuted.
 
 Example C03_nonvacuous :
   let A := {| pts := [[0#1;0#1]; [1#1;0#1]; [1#1;1#1]; [0#1;1#1]]; cells := [(9, [[0;1;2;3]])] |} in
